@@ -601,6 +601,43 @@ fn receiver_body(c: &mut Ctx, su: &Setup, thorough: bool) -> Result<(), Violatio
             }
         }
     }
+    // ---- sometimes the peer resets the connection in the middle; the application keeps reading: whatever it
+    // still gets is the peer's stream, and the end is never reported as graceful unless the FIN was delivered
+    if c.tape.draw(3) == 2 {
+        let rst = Tcp { seq: c.v_ack, ack: c.v_snd_max, flags: F_RST | F_ACK, win: 0, ..Tcp::default() };
+        let f = c.seg(&rst);
+        c.log(|| "P tx RST (in sequence)".into());
+        c.inject(f)?;
+        c.stats.inc("c04.peer-reset");
+        for _ in 0..3 {
+            let mut buf = vec![0u8; 4096];
+            let r = {
+                let s = c.node.sockets.get_mut::<tcp::Socket>(c.h);
+                guard("tcp::recv_slice", || s.recv_slice(&mut buf))?
+            };
+            match r {
+                Ok(k) => {
+                    for j in 0..k {
+                        let exp = stream_byte(key, delivered + j as u64);
+                        if buf[j] != exp && c.props.has("C04") {
+                            return Err(viol("C04", "stream", "C04.stream/wrong-byte", format!("after a reset: delivered byte {:#04x} at offset {} where the peer's byte is {:#04x}", buf[j], delivered + j as u64, exp)));
+                        }
+                    }
+                    delivered += k as u64;
+                    if k == 0 {
+                        break;
+                    }
+                }
+                Err(tcp::RecvError::Finished) => {
+                    if c.props.has("C04") && !eof && (delivered != total || !fin_sent) {
+                        return Err(viol("C04", "finished", "C04.finished/early", format!("after the peer reset the connection, Finished was reported after {} bytes; the peer's FIN is at {} (fin_sent={})", delivered, total, fin_sent)));
+                    }
+                    break;
+                }
+                Err(tcp::RecvError::InvalidState) => break,
+            }
+        }
+    }
     Ok(())
 }
 
